@@ -39,7 +39,7 @@ def plan(tier):
 
 
 def n_cases(tier):
-    return 5000 if tier == 'thorough' else 300
+    return 4000 if tier == 'thorough' else 300
 
 
 # ---------------------------------------------------------------------------
@@ -67,6 +67,9 @@ def gen_history(rng):
             ups = rng.sample(cands, k)
             if op == 'combine_latest' and rng.random() < 0.3:
                 new(op, ups, emit_on=[rng.randrange(k)], emit_on_form='single')      # emit_on = exactly one stream
+            elif op == 'zip' and rng.random() < 0.5:
+                # maxsize is a back-pressure threshold only: a zip never drops what an input is ahead by
+                new(op, ups, maxsize=rng.choice([1, 1, 2, 3]))
             else:
                 new(op, ups)
     build = [dict(nodes[n]) for n in order]
@@ -131,7 +134,8 @@ def gen_history(rng):
         elif r < 0.95:
             u = rng.choice(sorted(n for n in alive if nodes[n]['op'] != 'sink'))
             gid = 'g%d' % len(ops)
-            ops.append(['ghost', u, gid])
+            # half of them: the sink is constructed detached (upstream None) and wired in with connect() afterwards
+            ops.append(['ghost', u, gid] + (['detached'] if rng.random() < 0.5 else []))
             if rng.random() < 0.6:
                 # the unreferenced sink gets a second input, later loses its first one: it must go on serving the other
                 w = rng.choice(sorted(n for n in alive if nodes[n]['op'] != 'sink'))
@@ -342,7 +346,12 @@ def check_case(case, counters, sets):
                     from ..probes import CallSink
                     m_ = S[op[1]].map(F.inc)
                     log.name(m_, gm)
-                    s_ = m_.sink(CallSink(gs, calls))
+                    if len(op) > 3 and op[3] == 'detached':
+                        s_ = ssinks.sink(None, CallSink(gs, calls))
+                        m_.connect(s_)
+                        counters['detached_sinks_connected_later'] = counters.get('detached_sinks_connected_later', 0) + 1
+                    else:
+                        s_ = m_.sink(CallSink(gs, calls))
                     log.name(s_, gs)
                     S_tmp[:] = [m_, s_]
                     del m_, s_              # the program keeps no reference: only the sink registry does
